@@ -121,6 +121,7 @@ func (e Env) OpStr(a, b fmt.Stringer) string { e.L.Add("OpStr"); return a.String
 func (e Env) Two(a, b int) (int, int)        { return a, b }
 func (e Env) NoResult(a, b int)              {}
 func (e Env) Three(a, b, c int) int          { return a + b + c }
+func (e *Env) PtrOnly() int                  { return 77 }
 func (e Env) Boom(i int) int                 { e.L.Add("Boom(%d)", i); panic("boom") }
 
 // Domain of one member: constructors taking the run's log.
